@@ -67,6 +67,11 @@ impl Pty {
         }
     }
 
+    /// Deliver key bytes with one write on the master, so that a multi-byte key (an escape
+    /// sequence) reaches the slave's queue in one piece: the reader's `poll` after ESC must see the
+    /// rest of the sequence.  (TIOCSTI would be synchronous but delivers byte by byte.)  The write
+    /// is processed by an asynchronous flip-buffer work item: `Quiesce::wait` therefore insists on
+    /// the reader having been woken since `arm` before it believes the queue is empty.
     pub fn write_keys(&self, bytes: &[u8]) {
         let mut off = 0;
         let t0 = Instant::now();
@@ -192,25 +197,31 @@ impl Quiesce {
         timeout: Duration,
     ) -> Wait {
         let t0 = Instant::now();
-        let mut stable = 0;
         loop {
             pty.drain(out);
             if finished() {
                 pty.drain(out);
                 return Wait::Finished;
             }
-            let sw = voluntary_switches(self.tid);
-            if blocked_on_input(self.tid)
-                && pty.pending_input() == 0
-                && (!need_switch || sw > self.last_switches)
-            {
-                stable += 1;
-                if stable >= 2 {
-                    pty.drain(out);
-                    return Wait::Blocked;
+            // A thread that is merely sleeping on a kernel lock inside read()/poll() (our own
+            // FIONREAD ioctl takes the tty's termios lock) also looks "blocked, queue empty, has
+            // switched": so the state must persist, with an unchanged switch count, across a
+            // pause during which we touch nothing.
+            let sw1 = voluntary_switches(self.tid);
+            if blocked_on_input(self.tid) && (!need_switch || sw1 > self.last_switches) && pty.pending_input() == 0 {
+                std::thread::sleep(Duration::from_micros(80));
+                let b2 = blocked_on_input(self.tid);
+                let sw2 = voluntary_switches(self.tid);
+                if b2 && sw2 == sw1 {
+                    std::thread::sleep(Duration::from_micros(40));
+                    let b3 = blocked_on_input(self.tid);
+                    let sw3 = voluntary_switches(self.tid);
+                    if b3 && sw3 == sw1 && pty.pending_input() == 0 && !finished() {
+                        pty.drain(out);
+                        return Wait::Blocked;
+                    }
                 }
-            } else {
-                stable = 0;
+                continue;
             }
             if t0.elapsed() > timeout {
                 return Wait::Timeout;
